@@ -138,7 +138,7 @@ func checkC03(c *ev.Ctx) {
 	c.Assume("a stream is 'valid' when internal/ref accepts it and liblzma (when linked) agrees; disagreement between the references is counted as generator_rejected and never charged to the library")
 	nfresh, ngen := 600, 6000
 	if thorough(c) {
-		nfresh, ngen = 4000, 40000
+		nfresh, ngen = 10000, 100000
 	}
 	var streams []validStream
 	// (i) corpus
